@@ -574,7 +574,13 @@ impl ErasedNode for Node {
         if let Some(Kind::MapRef(mapref)) = self.kind() {
             // child_changed was not called while we were unlinked from our input, so if the input
             // changed in the meantime we cannot tell whether the projection did: assume so.
-            if self.is_stale() {
+            // The same goes for a projection of a projection that is in that position: its own
+            // recompute will not call our child_changed.
+            let input_pending = match mapref.input.kind() {
+                Some(Kind::MapRef(input)) => input.did_change.get(),
+                _ => false,
+            };
+            if self.is_stale() || input_pending {
                 mapref.did_change.set(true);
             }
         }
